@@ -27,19 +27,40 @@ def packer_precondition(model: Model, mr, site) -> tuple:
     from ..anchors import asn1 as asn1_anchors
     from ..facts import FactFlow
     an = asn1_anchors(model)
-    fi = an.packer
-    if site["function"] != fi.qualname:
+    fam = {f.qualname: f for f in an.packer_family}
+    fi = fam.get(site["function"])
+    if fi is None:
         return False, ""
-    cls_p, num_p = an.packer_params()
-    if cls_p is None or num_p is None:
+    # the tag parameters of whichever function of the packer family the site is in, by annotation
+    cls_p = num_p = None
+    for a in fi.node.args.args:
+        ann = norm(a.annotation) if a.annotation is not None else ""
+        if ann.endswith("TagClass"):
+            cls_p = a.arg
+        elif "TypeTagNumber" in ann or (ann == "int" and "number" in a.arg):
+            num_p = a.arg
+    if cls_p is None and num_p is None:
         return False, "tag parameters not identified"
-    init = frozenset({("INT", cls_p, 0, 3), ("GE0", cls_p), ("INT", num_p, 0, float("inf")), ("GE0", num_p)})
-    fl = FactFlow(fi.node, ival=lambda e, facts: mr.ival(e, facts, fi), init_facts=init)
+    init = set()
+    if cls_p:
+        init |= {("INT", cls_p, 0, 3), ("GE0", cls_p)}
+    if num_p:
+        init |= {("INT", num_p, 0, float("inf")), ("GE0", num_p)}
+    init = frozenset(init)
+    fl = FactFlow(fi.node, ival=lambda e, facts: mr.ival(e, facts, fi), init_facts=init | mr.param_facts(fi))
     for n in walk_no_nested(fi.node):
-        if isinstance(n, ast.Call) and n.lineno == site["line"] and isinstance(n.func, ast.Attribute) and n.func.attr == "append" and n.args:
-            lo, hi = mr.ival(n.args[0], fl.facts_at.get(id(n), frozenset()), fi)
-            if lo >= 0 and hi <= 255:
-                return True, f"in range [{lo}, {hi}] once the tag class is in 0..3 and the tag number >= 0 (constant tags: C05 P2)"
+        if not (isinstance(n, ast.Call) and n.lineno == site["line"] and n.args):
+            continue
+        elems = None
+        if isinstance(n.func, ast.Attribute) and n.func.attr == "append":
+            elems = [n.args[0]]
+        elif isinstance(n.func, ast.Name) and n.func.id in ("bytearray", "bytes") and isinstance(n.args[0], ast.List):
+            elems = list(n.args[0].elts)
+        if elems is None or norm(n)[:100] != site["construct"][:100]:
+            continue
+        ivs = [mr.ival(x, fl.facts_at.get(id(n), frozenset()), fi) for x in elems]
+        if all(lo >= 0 and hi <= 255 for lo, hi in ivs):
+            return True, f"in range {ivs} once the tag class is in 0..3 and the tag number >= 0 (constant tags: C05 P2)"
     return False, ""
 
 
@@ -101,13 +122,28 @@ def check(model: Model, run: Run) -> None:
 def sibling_constants(model: Model, run: Run) -> None:
     from ..anchors import asn1 as asn1_anchors
     an = asn1_anchors(model)
-    w, r, wn, rn = an.packer, an.header, an.octet_number_writer, an.octet_number_reader
-    if wn is None or rn is None:
+    w, r = an.packer, an.header
+    if not an.number_writers or not an.number_readers:
         raise AnalysisError("multi-octet tag-number helpers not identified")
+    # roles, found by dataflow in anchors: the functions that produce / consume the multi-octet tag number, and the rest of
+    # the header routine's and the packer's private helpers (identifier octet, length octets)
+    wn_fns = [an.number_writers[-1]]
+    rn_fns = list(an.number_readers)
+    w_fns = [f for f in an.packer_family if f not in wn_fns]
+    r_fns = [f for f in an.header_family if f not in rn_fns]
+
+    class Fam:
+        """A group of functions searched as one body."""
+        def __init__(self, fns):
+            self.fns = fns
+            self.node = ast.Module(body=[f.node for f in fns], type_ignores=[])
+            self.qualname = fns[0].qualname
+            self.module = fns[0].module
+    w, r, wn, rn = Fam(w_fns), Fam(r_fns), Fam(wn_fns), Fam(rn_fns)
 
     def compares(fi, var_pred):
         out = []
-        for n in walk_no_nested(fi.node):
+        for n in ast.walk(fi.node):
             if isinstance(n, ast.Compare) and len(n.ops) == 1 and var_pred(n.left) and const_int(n.comparators[0]) is not None:
                 out.append((type(n.ops[0]).__name__, const_int(n.comparators[0]), n))
         return out
@@ -141,11 +177,11 @@ def sibling_constants(model: Model, run: Run) -> None:
     ob("S1-tag-form-threshold", ok, f"writer switches to the multi-octet tag form at {w_first_long}, reader escapes at {rt[0][1]} (mask {rmask[:1]}, marker {wset[:1]}): must all be 31",
        node, w, {"writer_first_long_form": w_first_long, "reader_escape": rt[0][1]})
     # S2: length form: writer short form for < 128; reader tests bit 0x80 and masks 0x7f
-    wl = [c for c in compares(w, lambda e: isinstance(e, ast.Name) and e.id == "length") if c[0] in ("Lt", "LtE")]
+    wl = [c for c in compares(w, lambda e: isinstance(e, ast.Name) and "length" in e.id) if c[0] in ("Lt", "LtE")]
     rbit = [c for c, n in binops(r, ast.BitAnd) if c == 128]
     rcnt = [c for c, n in binops(r, ast.BitAnd) if c == 127]
     wbit = [c for c, n in binops(w, ast.BitOr) if c == 128]
-    rindef = [c for c in compares(r, lambda e: isinstance(e, ast.Name) and e.id == "length") if c[0] == "Eq" and c[1] == 128]
+    rindef = [c for c in compares(r, lambda e: isinstance(e, ast.Name)) if c[0] == "Eq" and c[1] == 128]
     if not wl:
         raise AnalysisError("length form test not found in the TLV packer")
     first_long = wl[0][1] if wl[0][0] == "Lt" else wl[0][1] + 1
@@ -167,7 +203,8 @@ def sibling_constants(model: Model, run: Run) -> None:
     ob("S2-length-octet-width", ok, "writer/reader disagree on 8 bits per length octet", w.node, w, {"writer_mask255": bool(wmask), "writer_shift8": bool(wsh), "reader_shift8": bool(rsh8)})
     # S3: class / constructed bit positions
     wcls = [c for c, n in binops(w, ast.LShift) if c == 6] + [c for c, n in binops(w, ast.Mult) if c == 64]
-    wcon = [c for c, n in binops(w, ast.LShift) if c == 5] + [c for c, n in binops(w, ast.Mult) if c == 32]
+    wcon = [c for c, n in binops(w, ast.LShift) if c == 5] + [c for c, n in binops(w, ast.Mult) if c == 32] + \
+           [32 for n in ast.walk(w.node) if isinstance(n, ast.IfExp) and const_int(n.body) == 32 and const_int(n.orelse) == 0]
     rcls = [c for c, n in binops(r, ast.BitAnd) if c == 192]
     rclsh = [c for c, n in binops(r, ast.RShift) if c == 6] + [c for c, n in binops(r, ast.FloorDiv) if c == 64]
     rcon = [c for c, n in binops(r, ast.BitAnd) if c == 32]
